@@ -112,3 +112,13 @@ def copy_attrs(src, dst):
     for attr in COPY_ATTRS:
         if (value := getattr(src, attr, None)) is not None:
             setattr(dst, attr, value)
+
+
+def update_values(d):
+    for xs in d.values():
+        xs.append(0)
+    return 0
+
+
+def unit_transform(t):
+    return t[:-1] == (1, 0, 0, 1, 0)
